@@ -145,3 +145,47 @@ Section Visit.
       end
     end.
 End Visit.
+
+(* ---- the repository path of model_export_to_file: for every model of the repository a subgraph block listing the
+   model and its contained children (textx.get_children: containment only, parents first), then _export of the model,
+   all with one processed set *)
+Section Repo.
+  Variable st : list obj.
+
+  Fixpoint children (fuel : nat) (k : nat) (acc : list nat) : list nat :=
+    match fuel with
+    | O => acc
+    | S f =>
+      if existsb (Nat.eqb k) acc then acc else
+      match nth_error st k with
+      | None => acc
+      | Some o =>
+        fold_left (fun acc a =>
+                     if a_cont a then
+                       match a_val a with
+                       | VObj j => if a_list a then acc else children f j acc
+                       | VList l => if a_list a
+                                    then fold_left (fun acc i => match i with IObj j => children f j acc | _ => acc end) l acc
+                                    else acc
+                       | _ => acc
+                       end
+                     else acc) (o_attrs o) (acc ++ [k])
+      end
+    end.
+
+  Definition sp8 : list N := [32; 32; 32; 32; 32; 32; 32; 32]%N.
+  Definition subgraph_stmts (k : nat) (fname : list N) : list stmt :=
+    let fn := dot_escape fname in
+    [(None, [115;117;98;103;114;97;112;104;32;34;99;108;117;115;116;101;114;95]%N ++ fn ++ [34; 32; 123; 10]%N);
+     (None, [10%N] ++ sp8 ++ [112;101;110;119;105;100;116;104;61;50;46;48;10]%N
+            ++ sp8 ++ [99;111;108;111;114;61;100;97;114;107;111;114;97;110;103;101;52;59;10]%N
+            ++ sp8 ++ [108;97;98;101;108;32;61;32;34]%N ++ fn ++ [34; 59; 10]%N ++ sp8 ++ sp8 ++ [32; 32; 32; 32]%N)]
+    ++ map (fun j => (None, idtext j ++ [59; 10]%N)) (children (S (length st)) k [])
+    ++ [(None, [10; 125; 10]%N)].
+
+  Definition export_repo (roots : list (nat * list N)) : wacc :=
+    fold_left (fun acc r => export st (S (length st)) (fst r) (fst acc ++ subgraph_stmts (fst r) (snd r), snd acc)) roots ([], []).
+
+  Definition export_repo_doc (header : list N) (roots : list (nat * list N)) : list N :=
+    header ++ flat_map snd (fst (export_repo roots)) ++ [10; 125; 10]%N.
+End Repo.
